@@ -319,3 +319,29 @@ Definition fl_div_r (x y : fl) : option fl :=
       mk_fl_r (if xorb (m1 <? 0) (m2 <? 0) then - mp else mp) (e1 - e2 - k - 1)
   | _, _ => fl_div x y
   end.
+
+(* The restricted printer the JSON models use: exact decimal expansion without exponent, defined only for
+   integers below 10^6 and fractions with at most nine binary places -- the domain where strconv's 'g' form
+   (Float.String, [fl_to_string]) and encoding/json's float layout agree.  Outside it the JSON models answer
+   OutOfModel.  (This is the definition [fl_to_string] had before it was extended to every float.) *)
+Definition fl_to_string_dom (x : fl) : option bstr :=
+  match x with
+  | FNaN => Some [78; 97; 78]%N                      (* NaN *)
+  | FInf false => Some [43; 73; 110; 102]%N          (* +Inf *)
+  | FInf true => Some [45; 73; 110; 102]%N           (* -Inf *)
+  | FZero false => Some [48]%N
+  | FZero true => Some [45; 48]%N
+  | FFin m e =>
+      let a := Z.abs m in
+      let sign : bstr := if m <? 0 then [45]%N else [] in
+      if 0 <=? e then
+        let v := a * 2 ^ e in
+        if v <? 1000000 then Some (sign ++ dec_of_Z v) else None
+      else if e <? -9 then None
+      else
+        let den := 2 ^ (- e) in
+        let ip := a / den in
+        if ip <? 1000000 then
+          Some (sign ++ dec_of_Z ip ++ [46]%N ++ frac_digits 12 (a mod den) den)
+        else None
+  end.
